@@ -70,3 +70,64 @@ def check(ctx):
                 ctx.known("F4", f"[{v}] {st['what']}; history {st['acts']}")
             else:
                 ctx.violation(f"[{v}] F4 history: {st['what']}", {"acts": st["acts"]})
+
+    # ---- pattern T: free-running threads, probes only log; TLC infers where the unlogged steps happened
+    import copy
+    import json
+    from ..common import BUILD, VERIF, VENV_PY, child_env, run
+    from ..tlc import run_tlc
+    ctx.explanation += ("; pattern T: 3 free-running threads (switch interval 1e-5) extract while an environment thread edits "
+                        "sys.modules, the probes only log arrivals, and GlueInstallTrace lets TLC place the unlogged Leave* "
+                        "actions (one silent step per thread per arrival, environment edits between begin/end) so that the "
+                        "whole trace and the real call log are explained; a deliberately corrupted trace must be rejected")
+    d = BUILD / "m4"
+    d.mkdir(parents=True, exist_ok=True)
+    rounds = 12 if ctx.tier == "quick" else 120
+    for vec in (["both"] if ctx.tier == "quick" else ["both", "raise"]):
+        v = m4.VECTORS[vec]
+        inp = d / f"free_{vec}.json"
+        inp.write_text(json.dumps({"config": {"mods": v["mods"], "hasB": v["hasB"], "flavour": v["flavour"], "imp": v["imp"]},
+                                   "threads": ["t1", "t2", "t3"], "rounds": rounds, "seed": ctx.seed + 3}))
+        outp = d / f"free_{vec}_out.json"
+        p, _ = run([VENV_PY, str(VERIF / "harness/drivers/glue_driver.py"), str(inp), str(outp), "free"], timeout=900, env=child_env("3.12"))
+        if p.returncode != 0:
+            raise MachineryError(f"free-running glue driver failed: {p.stderr[-1500:]}")
+        traces = json.loads(outp.read_text())["traces"]
+        bad = copy.deepcopy(traces[-1])
+        ks = [i for i, e in enumerate(bad["events"]) if e["p"] == "popm"]
+        corrupted = False
+        if ks:
+            bad["events"][ks[0]]["p"] = "called"
+            traces.append(bad)
+            corrupted = True
+        tpath = d / f"free_{vec}_traces.json"
+        tpath.write_text(json.dumps(traces))
+        cfg = m4.cfg_for("GI_trace.cfg", vec, f"GI_trace_{vec}.cfg")
+        r = ctx.tlc(run_tlc("GlueInstallTrace", cfg, workers=1, timeout=1800, coverage=False, env={"GI_TRACES": str(tpath)}, name=f"gitrace_{vec}"),
+                    f"trace validation of {len(traces)} free-running executions, vector {vec}")
+        if not r.ok:
+            raise MachineryError(f"trace validation run failed: {r.violated}")
+        best = {}
+        for e in r.emitted:
+            b = best.setdefault(e["tid"], {"l": 0, "final": False, "once": True, "beats": True, "lockok": True})
+            b["l"] = max(b["l"], e["l"])
+            if e.get("final"):
+                b["final"] = True
+                for k in ("once", "beats", "lockok"):
+                    b[k] = b[k] and e[k]
+        for i, t in enumerate(traces, start=1):
+            b = best.get(i, {"l": 0, "final": False})
+            ok = b["l"] > len(t["events"]) and b["final"]
+            if corrupted and i == len(traces):
+                if ok:
+                    raise MachineryError("binding demonstration failed: the corrupted trace was accepted")
+                ctx.note("corrupted_trace_rejected_at_event", b["l"])
+                continue
+            if not ok:
+                ev = t["events"][b["l"] - 1] if 0 < b["l"] <= len(t["events"]) else None
+                ctx.violation(f"vector {vec}: a free-running execution is not a behaviour of GlueInstall: matched {b['l'] - 1} of "
+                              f"{len(t['events'])} events, first unmatched {ev}; real call log {t['calls']}", {"trace": t})
+                continue
+            ctx.traces += 1
+            if not (b["once"] and b["beats"] and b["lockok"]):
+                ctx.violation(f"vector {vec}: free-running execution violates at-most-once / module-beats-builtin / lock discipline: {t['calls']}", {"trace": t})
